@@ -1530,6 +1530,58 @@ func checkTrackReadOnly(rep *Reporter, specS, valS string) {
 	})
 }
 
+// checkTrackMsgReadOnly: a message whose data elements 35 / 36 / 45 are Track2 / Track3 / Track1
+// FIELDS (impl.TrackMsgSpec): Describe, JSON encoding, Pack and Clone leave the track components,
+// the packed bytes and the JSON text as they were.
+func checkTrackMsgReadOnly(rep *Reporter, r *gen.Rng) {
+	pan := func() string { return string(r.From([]byte("0123456789"), 12+r.Intn(8))) }
+	exp := fmt.Sprintf("%02d%02d", 20+r.Intn(40), 1+r.Intn(12))
+	t2 := pan() + gen.Pick(r, []string{"=", "D"}) + exp + "201" + string(r.From([]byte("0123456789"), 1+r.Intn(8)))
+	t1 := "B" + pan() + "^DOE/JOHN^" + exp + "201" + "123456"
+	t3 := "01" + pan() + "=" + "1234567"
+	line := fmt.Sprintf("TM describe 35=%s 45=%s 36=%s", impl.Hex([]byte(t2)), impl.Hex([]byte(t1)), impl.Hex([]byte(t3)))
+	safely(rep, line, func() {
+		m := iso8583.NewMessage(impl.TrackMsgSpec)
+		m.MTI("0200")
+		if m.Field(2, pan()) != nil || m.Field(35, t2) != nil || m.Field(45, t1) != nil || m.Field(36, t3) != nil {
+			rep.Case("")
+			return
+		}
+		snap := func() string {
+			var parts []string
+			for _, id := range []int{2, 35, 36, 45} {
+				s, err := m.GetString(id)
+				parts = append(parts, fmt.Sprintf("%d=%q/%v", id, s, err == nil))
+			}
+			parts = append(parts, impl.TrackMsgTree(m).String())
+			return strings.Join(parts, " ")
+		}
+		p0, e0 := m.Pack() // (the bitmap field shows the bits of the last Pack: KF10 — so Pack first)
+		before := snap()
+		for _, op := range []string{"Describe", "MarshalJSON", "Pack", "Clone"} {
+			switch op {
+			case "Describe":
+				var buf bytes.Buffer
+				_ = iso8583.Describe(m, &buf)
+			case "MarshalJSON":
+				_, _ = json.Marshal(m)
+			case "Pack":
+				_, _ = m.Pack()
+			default:
+				_, _ = m.Clone()
+			}
+			p1, e1 := m.Pack()
+			if after := snap(); after != before || !bytes.Equal(p0, p1) || (e0 == nil) != (e1 == nil) {
+				rep.Case(line)
+				rep.Viol("a read-only operation ("+op+") changed a message with track fields", line,
+					fmt.Sprintf("before %s %x | after %s %x", before, p0, after, p1))
+				return
+			}
+		}
+		rep.Case(line)
+	})
+}
+
 func checkC15History(rep *Reporter, c *hcase) {
 	r := gen.NewRng(uint64(len(c.ops))*7919 + uint64(len(c.specS)))
 	checkDeterminism(rep, c)
@@ -1575,6 +1627,9 @@ func runC15(t gen.Tier, r *gen.Rng, rep *Reporter) {
 			}
 			rep.Case(line)
 		})
+	}
+	for i := 0; i < t.N(100, 3000); i++ {
+		checkTrackMsgReadOnly(rep, r)
 	}
 	// track fields: read-only operations leave the components alone
 	nTrack := 0
